@@ -198,59 +198,58 @@ type NewUser struct {
 }
 `
 
-// handHarness is a tiny program in the scratch module that runs the generated server once: the
-// root resolver `calc` returns a hand.Calc (set through reflection so that it compiles whatever
-// the configuration makes of the resolver's result type), one query selects every method-bound
-// field with distinct argument values, and the raw response body is printed.
-const handHarness = `package main
+// calcQuery / calcWant: the one selection over the method-bound fields of hand.Calc and what the
+// GraphQL semantics say the answer is (arguments are matched by NAME; defaults apply to omitted
+// arguments; a (value, false) method result is null).
+const calcQuery = ` calc { span(from: 1, to: 5) label(prefix: \"a\", width: 3, suffix: \"z\") scale(factor: 1.5, round: true) window(lo: 2) w2: window(hi: 4, lo: 7) maybe(n: 1) m0: maybe(n: 0) }`
 
-import (
-	"fmt"
-	"net/http/httptest"
-	"os"
-	"reflect"
-	"strings"
+func calcWant() map[string]any {
+	return map[string]any{"span": "from=1 to=5", "label": "prefix=a width=3 suffix=z", "scale": "factor=1.5 round=true",
+		"window": "lo=2 hi=9", "w2": "lo=7 hi=4", "maybe": "n=1", "m0": nil}
+}
 
-	"github.com/99designs/gqlgen/graphql/handler"
-	"github.com/99designs/gqlgen/graphql/handler/transport"
+// handSelf: the few hand-written types of the "autobind-self" layouts. They live in the package
+// that also receives models_gen.go, and autobind names that package (the layout of gqlgen's own
+// api/testdata/default).
+func handSelf(pkg string) string {
+	return "package " + pkg + `
 
-	"probe/graph"
-	"probe/hand"
-)
+type Tag struct {
+	Label string
+}
 
-func main() {
-	stub := &graph.Stub{}
-	f := reflect.ValueOf(&stub.QueryResolver).Elem().FieldByName("Calc")
-	if !f.IsValid() {
-		fmt.Println("HARNESS: Stub.QueryResolver has no Calc field")
-		os.Exit(3)
-	}
-	f.Set(reflect.MakeFunc(f.Type(), func([]reflect.Value) []reflect.Value {
-		v := reflect.ValueOf(&hand.Calc{})
-		if f.Type().Out(0).Kind() != reflect.Ptr {
-			v = v.Elem()
-		}
-		return []reflect.Value{v, reflect.Zero(f.Type().Out(1))}
-	}))
-	srv := handler.New(graph.NewExecutableSchema(graph.Config{Resolvers: stub}))
-	srv.AddTransport(transport.POST{})
-	req := httptest.NewRequest("POST", "/", strings.NewReader(os.Args[1]))
-	req.Header.Set("Content-Type", "application/json")
-	rec := httptest.NewRecorder()
-	srv.ServeHTTP(rec, req)
-	fmt.Print(rec.Body.String())
+func (Tag) IsThing() {}
+
+type Limits2 struct {
+	Lo *int
+	Hi int
+}
+
+type Order struct {
+	By   string
+	Desc *bool
 }
 `
+}
 
-// The one request of the harness and what the GraphQL semantics say the answer is (arguments
-// are matched by NAME; defaults apply to omitted arguments).
-const (
-	harnessRequest = `{"query":"{ calc { span(from: 1, to: 5) label(prefix: \"a\", width: 3, suffix: \"z\") scale(factor: 1.5, round: true) window(lo: 2) w2: window(hi: 4, lo: 7) maybe(n: 1) m0: maybe(n: 0) } }"}`
-	harnessWant    = `{"data":{"calc":{"span":"from=1 to=5","label":"prefix=a width=3 suffix=z","scale":"factor=1.5 round=true","window":"lo=2 hi=9","w2":"lo=7 hi=4","maybe":"n=1","m0":null}}}`
-)
+// harnessSpec: request body, reference data tree and the data keys that hold a JSON echo.
+func harnessSpec(kind string) (string, map[string]any, map[string]bool) {
+	inner := map[string]bool{"bounds": true, "numDefault": true, "numUse": true}
+	switch kind {
+	case "bounds":
+		return `{"query":"{` + boundsQuery + ` }"}`, boundsWant(), inner
+	case "bounds+calc":
+		w := boundsWant()
+		w["calc"] = calcWant()
+		return `{"query":"{` + boundsQuery + calcQuery + ` }"}`, w, inner
+	case "methodorder":
+		return methodOrderRequest, map[string]any{"calc": map[string]any{"span": "from=1 to=5", "join": "a=x b=y c=z", "window": "lo=2 hi=9", "w2": "lo=7 hi=4"}}, nil
+	}
+	panic("unknown harness kind " + kind)
+}
 
 func handFiles() map[string]string {
-	return map[string]string{"hand/models.go": handModels, "cmd/harness/main.go": handHarness}
+	return map[string]string{"hand/models.go": handModels}
 }
 
 // methodorder small project: equal-typed parameters only.
@@ -283,5 +282,4 @@ func (Calc) Window(hi *int, lo *int) string {
 
 const (
 	methodOrderRequest = `{"query":"{ calc { span(from: 1, to: 5) join(a: \"x\", b: \"y\", c: \"z\") window(lo: 2) w2: window(hi: 4, lo: 7) } }"}`
-	methodOrderWant    = `{"data":{"calc":{"span":"from=1 to=5","join":"a=x b=y c=z","window":"lo=2 hi=9","w2":"lo=7 hi=4"}}}`
 )
